@@ -142,6 +142,15 @@ func checkC18(c c18Case, rec *Rec) *Violation {
 			probes = append(probes, n[:len(n)-1], n[1:], n+"x", "x"+n, strings.ToUpper(n))
 		}
 	}
+	// names that share the 32-bit FastHash with a listed name must not be answered
+	for _, cp := range hostColliders {
+		if listed[cp[0]] {
+			probes = append(probes, cp[1])
+		}
+		if listed[cp[1]] {
+			probes = append(probes, cp[0])
+		}
+	}
 	if c.Comment != nil {
 		probes = append(probes, strings.Fields(strings.NewReplacer("#", " ", ",", " ").Replace(*c.Comment))...)
 	}
@@ -186,6 +195,12 @@ var c18IPs = []string{"0.0.0.0", "127.0.0.1", "::", "::1", "::ffff:1.2.3.4", "fe
 
 func c18WS(t *rapid.T, label string) string {
 	return rapid.StringMatching(`[ \t]{1,3}`).Draw(t, label)
+}
+
+func init() {
+	for _, cp := range hostColliders[:3] {
+		c18NamePool = append(c18NamePool, cp[0], cp[1])
+	}
 }
 
 func genC18(t *rapid.T) c18Case {
